@@ -51,6 +51,25 @@ func mkPred(spec string) func(r veregister.Register) bool {
 		return func(r veregister.Register) bool { return r.Address()%2 == 1 }
 	case "kind":
 		k, _ := strconv.Atoi(arg)
+		kindSeq++
+		if kindSeq%2 == 0 {
+			// the same predicate written as callers do who need the kind-specific accessors: by the dynamic type
+			// of the stored value
+			return func(r veregister.Register) bool {
+				got := veregister.Undefined
+				switch r.(type) {
+				case veregister.NumberRegisterStruct:
+					got = veregister.Number
+				case veregister.TextRegisterStruct:
+					got = veregister.Text
+				case veregister.EnumRegisterStruct:
+					got = veregister.Enum
+				case veregister.FieldListRegisterStruct:
+					got = veregister.FieldList
+				}
+				return int(got) == k
+			}
+		}
 		return func(r veregister.Register) bool { return int(r.Type()) == k }
 	case "sortbelow":
 		k, _ := strconv.Atoi(arg)
@@ -64,6 +83,8 @@ func mkPred(spec string) func(r veregister.Register) bool {
 	}
 	return func(r veregister.Register) bool { return false }
 }
+
+var kindSeq int
 
 // runRegList: gvrun reglist <casefile>; lines "<id> ops=<op>;<op>;..."
 func runRegList() {
